@@ -112,6 +112,13 @@ class LockAnalysis:
                     kind, how = "write", "rebind"
                 elif isinstance(par, ast.Subscript) and par.value is n and isinstance(par.ctx, (ast.Store, ast.Del)):
                     kind, how = "write", "item store/del"
+                elif isinstance(par, ast.Subscript) and par.value is n:
+                    # nested element store  X[a][b] = v  mutates X as well
+                    top = par
+                    while isinstance(fl.parent.get(id(top)), ast.Subscript) and fl.parent[id(top)].value is top:
+                        top = fl.parent[id(top)]
+                    if isinstance(top.ctx, (ast.Store, ast.Del)):
+                        kind, how = "write", "nested item store/del"
                 elif isinstance(par, ast.Attribute) and par.value is n and par.attr in MUTATORS:
                     gp = fl.parent.get(id(par))
                     if isinstance(gp, ast.Call) and gp.func is par:
